@@ -113,3 +113,27 @@ Example admid_nonvacuous :
   /\ admid_ref mi ex3 = Ok [1; 1; 1; 1; 1; 1]
   /\ option_map (map snd) (match admid_impl mi ex3 with Ok l => Some l | Err _ => None end) = Some [1; 1; 1; 1; 1; 1].
 Proof. repeat split; vm_compute; reflexivity. Qed.
+
+(* extensions: ex2 (ADDL): the working frame has 11 records, get_doseid refines its walk there, no DOSEID
+   is out of order; the walk over the frame gives the TAD of the 8 original records *)
+Example tad_refines_frame_nonvacuous :
+  match tad_frame ex2 with
+  | Ok fr => length fr = 11%nat
+             /\ guard_doseid (with_rows ex2 (map fst fr) true) = true /\ guard_tad_frame ex2 = true
+             /\ map snd (filter (fun p : (row * bool) * Z => negb (snd (fst p)))
+                                (combine fr (tad_walk (with_rows ex2 (map fst fr) true))))
+                = [0; 20; 4; 24; 0; 4; 0; 4]
+  | Err _ => False
+  end.
+Proof. repeat split; vm_compute; reflexivity. Qed.
+
+Example ids_nonvacuous : ids_impl ex3 = [1; 2] /\ nind_impl ex3 = 2 /\ covbase_impl 1 ex3 = Ok [(1, [280]); (2, [240])].
+Proof. repeat split; vm_compute; reflexivity. Qed.
+
+Example add_cmt_nonvacuous :
+  let mi := mkMinfo [(1, 1, false); (2, 2, true)] 2 in
+  has_cmt (ds_sch ex3) = false
+  /\ option_map (map r_cmt) (match add_cmt_impl mi ex3 with Ok l => Some l | Err _ => None end) = Some [1; 0; 0; 1; 1; 0]
+  /\ option_map (map r_admid) (match add_admid_impl mi ex3 with Ok l => Some l | Err _ => None end) = Some [1; 1; 1; 1; 1; 1].
+Proof. repeat split; vm_compute; reflexivity. Qed.
+
